@@ -15,6 +15,7 @@
 package circuitbreaker
 
 import (
+	"math"
 	"reflect"
 	"sync/atomic"
 
@@ -155,6 +156,23 @@ func (b *circuitBreakerBase) retryTimeoutArrived() bool {
 	return util.CurrentTimeMillis() >= atomic.LoadUint64(&b.nextRetryTimestampMs)
 }
 
+// retryClaimed is stored in nextRetryTimestampMs while the probe of the current open
+// period has been claimed (the timestamp is rewritten when the breaker opens again).
+const retryClaimed = uint64(math.MaxUint64)
+
+// tryClaimRetry reports whether the retry timeout of the current open period has
+// elapsed and, if so, claims its probe with a CAS on the deadline itself. Checking
+// the deadline and the state separately let a caller that had seen an expired
+// deadline move a breaker that had meanwhile been probed and re-opened to
+// half-open again, before the new retry timeout had elapsed.
+func (b *circuitBreakerBase) tryClaimRetry() bool {
+	deadline := atomic.LoadUint64(&b.nextRetryTimestampMs)
+	if deadline == retryClaimed || util.CurrentTimeMillis() < deadline {
+		return false
+	}
+	return atomic.CompareAndSwapUint64(&b.nextRetryTimestampMs, deadline, retryClaimed)
+}
+
 func (b *circuitBreakerBase) updateNextRetryTimestamp() {
 	atomic.StoreUint64(&b.nextRetryTimestampMs, util.CurrentTimeMillis()+uint64(b.retryTimeoutMs))
 }
@@ -202,6 +220,8 @@ func (b *circuitBreakerBase) fromOpenToHalfOpen(ctx *base.EntryContext) bool {
 			// this hook will guarantee current circuit breaker state machine will rollback to Open from Half-Open
 			entry.WhenExit(func(entry *base.SentinelEntry, ctx *base.EntryContext) error {
 				if ctx.IsBlocked() && b.state.cas(HalfOpen, Open) {
+					// The probe never ran: allow the next request to retry at once.
+					atomic.StoreUint64(&b.nextRetryTimestampMs, 0)
 					for _, listener := range stateChangeListeners {
 						listener.OnTransformToOpen(HalfOpen, *b.rule, 1.0)
 					}
@@ -297,7 +317,7 @@ func (b *slowRtCircuitBreaker) TryPass(ctx *base.EntryContext) bool {
 		return true
 	} else if curStatus == Open {
 		// switch state to half-open to probe if retry timeout
-		if b.retryTimeoutArrived() && b.fromOpenToHalfOpen(ctx) {
+		if b.tryClaimRetry() && b.fromOpenToHalfOpen(ctx) {
 			return true
 		}
 	} else if curStatus == HalfOpen && b.probeNumber > 0 {
@@ -486,7 +506,7 @@ func (b *errorRatioCircuitBreaker) TryPass(ctx *base.EntryContext) bool {
 		return true
 	} else if curStatus == Open {
 		// switch state to half-open to probe if retry timeout
-		if b.retryTimeoutArrived() && b.fromOpenToHalfOpen(ctx) {
+		if b.tryClaimRetry() && b.fromOpenToHalfOpen(ctx) {
 			return true
 		}
 	} else if curStatus == HalfOpen && b.probeNumber > 0 {
@@ -671,7 +691,7 @@ func (b *errorCountCircuitBreaker) TryPass(ctx *base.EntryContext) bool {
 		return true
 	} else if curStatus == Open {
 		// switch state to half-open to probe if retry timeout
-		if b.retryTimeoutArrived() && b.fromOpenToHalfOpen(ctx) {
+		if b.tryClaimRetry() && b.fromOpenToHalfOpen(ctx) {
 			return true
 		}
 	} else if curStatus == HalfOpen && b.probeNumber > 0 {
